@@ -19,7 +19,20 @@ type reader struct{}
 // FailAt, when > 0, makes the FailAt-th read from now on fail (fault injection: the OS source is unavailable).
 var FailAt int64
 
+// ScriptAt / Script: when ScriptAt > 0, the ScriptAt-th read from now on is answered with Script repeated to
+// the requested length instead of OS bytes (an OS source that hands out a degenerate value: all zero, all ff).
+var ScriptAt int64
+var Script byte
+
 func (reader) Read(p []byte) (int, error) {
+	if atomic.LoadInt64(&ScriptAt) > 0 {
+		if atomic.AddInt64(&ScriptAt, -1) == 0 {
+			for i := range p {
+				p[i] = Script
+			}
+			return len(p), nil
+		}
+	}
 	// FailAt is only set by single-threaded drivers; the counters are atomic so that free-running drivers
 	// (several clients at once) do not race inside the shim
 	if atomic.LoadInt64(&FailAt) > 0 {
